@@ -99,6 +99,13 @@ class UnitBuild:
                 ctx.fn_queue.append(t)
             ctx.lower_all()
             return self.render()
+        if cfg.get('ast_check'):
+            try:
+                self.notes += cfg['ast_check'](self.ast)
+            except Unsupported:
+                raise
+            except Exception as e:
+                raise Unsupported('witness structure check failed: %s' % e)
         targets = find_target(self.ast, cfg['target'])
         if not targets:
             raise Unsupported('target function not found: %r' % (cfg['target'],))
@@ -143,6 +150,28 @@ class UnitBuild:
         c = self.cfg.get('contracts', {}).get(cname)
         if c is None:
             return []
+        params = (self.ctx.fn_info.get(cname) or {}).get('params', [])
+
+        def sub(txt):
+            # {p0}, {p1}, {p-1}: name of the n-th lowered parameter (the library leaves some parameters unnamed)
+            def rep(m):
+                i = int(m.group(1))
+                try:
+                    return params[i]
+                except IndexError:
+                    raise Unsupported('contract of %s refers to parameter %d but the function has %d' % (cname, i, len(params)))
+            txt = re.sub(r'\{p(-?\d+)\}', rep, txt)
+            isptr = (self.ctx.fn_info.get(cname) or {}).get('param_is_ptr', {})
+            # {ptr:x}: address of the object parameter x denotes (x itself when it is passed by reference/pointer,
+            # the address of the callee's own copy when the code passes it by value); {fresh:x}: is_fresh for pointer parameters
+            txt = re.sub(r'\{ptr:(\w+)\}', lambda m: m.group(1) if isptr.get(m.group(1), True) else '(&%s)' % m.group(1), txt)
+            txt = re.sub(r'\{fresh:(\w+)\}', lambda m: ('__CPROVER_is_fresh(%s, sizeof(*%s))' % (m.group(1), m.group(1))) if isptr.get(m.group(1), True) else '1', txt)
+            return txt
+        c = dict(c)
+        for k in ('requires', 'requires_target', 'assigns'):
+            if c.get(k) is not None:
+                c[k] = [sub(x) for x in c[k]]
+        c['ensures'] = [(e[0], sub(e[1])) if isinstance(e, tuple) else sub(e) for e in c.get('ensures', [])]
         out = []
         if not for_decl:
             # pointer-validity preconditions that only make sense when the function is the one under verification
